@@ -1,5 +1,6 @@
 """C16 - Arc moves are sampled faithfully (analytic circle geometry)."""
 import math
+import re
 
 from hypothesis import strategies as st
 
@@ -35,7 +36,8 @@ def cases(draw):
         if not (i or j):
             i = 2.5
         return {"form": "IJ", "cw": cw, "sx": sx, "sy": sy, "i": i, "j": j, "ex": sx, "ey": sy, "full": True,
-                "e2e": draw(st.sampled_from(["none", "deep", "clear"])), "t": draw(st.floats(0.2, 0.8))}
+                "e2e": draw(st.sampled_from(["none", "deep", "clear"])), "t": draw(st.floats(0.2, 0.8)),
+                "new_print": draw(st.integers(0, 3)) == 0, "laps": draw(st.sampled_from([1, 2, 3]))}
     sx = draw(st.integers(-200000, 200000)) / 1000.0      # plain-decimal spellings for the positioning command
     sy = draw(st.integers(-200000, 200000)) / 1000.0
     r = math.exp(draw(st.floats(math.log(0.2), math.log(500))))
@@ -61,6 +63,9 @@ def cases(draw):
     if draw(st.integers(0, 2)) == 0:
         # the same handlers object has planned an arc with the identical arguments before, from another start point
         case["prior_t"] = draw(st.floats(0.3, 6.0))
+    if draw(st.integers(0, 3)) == 0:
+        case["new_print"] = True       # a previous print ended elsewhere; the state was reset (PRINT_STARTED), the handlers live on
+    case["spell"] = draw(st.sampled_from(["plain", "plain", "compact"]))
     if form == "IJ":
         case["i"], case["j"] = cx - sx, cy - sy
     else:
@@ -94,6 +99,11 @@ def run_case(case, strict=False):  # noqa: C901  pylint: disable=too-many-branch
         out.append({"tag": tag, "msg": msg})
 
     flt = core.DirectFilter({}, [])
+    if case.get("new_print"):
+        for c in ("G28", "G1 X150.05 Y180.99 Z0.2 F3000", "G91", "G1 X1"):
+            flt.gcode(c)
+        flt.state.resetState()
+        cl.add("after_a_previous_print")
     flt.gcode("G28")
     unit = 1.0
     if case.get("inch"):
@@ -222,11 +232,18 @@ def run_case(case, strict=False):  # noqa: C901  pylint: disable=too-many-branch
             words = " X%s Y%s I%s J%s" % (repr(ex), repr(ey), repr(i), repr(j))
         if "e" not in words and "E" not in words:
             cmd = ("G2" if cw else "G3") + words
+            if case.get("spell") == "compact":
+                # legal compact spelling: no leading zero ('.5', '-.25')
+                cmd = re.sub(r"(?<![0-9.])(-?)0\.(?=[0-9])", r"\1.", cmd)
             if case["e2e"] == "deep" and arc_len >= 2.6:
                 t = (1.15 + case["t"] * (arc_len - 2.3)) / arc_len
                 a = a0 + want_sweep * t
                 reg = {"type": "circ", "cx": (cx + r * math.cos(a)) * unit, "cy": (cy + r * math.sin(a)) * unit, "r": 1.05 * unit, "id": "deep"}
                 f2 = core.DirectFilter({}, [reg])
+                if case.get("new_print"):
+                    for c in ("G28", "G1 X150.05 Y180.99 Z0.2 F3000", "G91", "G1 X1"):
+                        f2.gcode(c)
+                    f2.state.resetState()
                 f2.gcode("G28")
                 if unit != 1.0:
                     f2.gcode("G20")
@@ -234,10 +251,13 @@ def run_case(case, strict=False):  # noqa: C901  pylint: disable=too-many-branch
                 if f2.state.excluding:
                     pass
                 else:
-                    res = core.normalise(cmd, f2.gcode(cmd))
-                    cl.add("e2e_deep")
-                    if cmd in res:
-                        bad("c16_deep_arc_forwarded", "%r from (%r,%r) passes through the centre of %r but was forwarded" % (cmd, sx, sy, reg))
+                    # (a full circle ends where it began: the identical command may follow at once - several laps)
+                    for lap in range(case.get("laps", 1) if case.get("full") else 1):
+                        res = core.normalise(cmd, f2.gcode(cmd))
+                        cl.add("e2e_deep")
+                        if cmd in res:
+                            bad("c16_deep_arc_forwarded", "%r (lap %d) from (%r,%r) passes through the centre of %r but was forwarded" % (cmd, lap + 1, sx, sy, reg))
+                            break
             elif case["e2e"] == "clear":
                 reg = {"type": "rect", "x1": (cx + r + 1.5) * unit, "y1": (cy - r) * unit, "x2": (cx + r + 6) * unit, "y2": (cy + r) * unit, "id": "clear"}
                 f2 = core.DirectFilter({}, [reg])
